@@ -12,6 +12,10 @@
 //	file.truncwrite <hex>                       => <rules>   (os.WriteFile: O_TRUNC, then the bytes)
 //	file.rename                                 => <rules>   (renamed away; the watcher clears and starts its re-watch retries)
 //	file.recreate <hex>                         => <rules>   (a complete new file at the path while the retries are pending)
+//	file.renameback                             => <rules>   (the SAME file renamed back unchanged - same size, same mtime - while the retries are pending)
+//	file.recreatep <hex>                        => <rules>   (like file.recreate, the new file given the mtime of the file that was renamed away: cp -p / rsync -t)
+//	file.rewrite <hex>                          => <rules>   (in-place rewrite; the watcher is parked in a handler call meanwhile and the mtime is
+//	                                               put back with os.Chtimes: same size if the content has the same length, identical mtime)
 //	file.giveup                                 => <rules>   (nothing re-appears: the six retries run out, the source closes)
 //	file.replace <hex>                          => <rules>   (temp file + rename over the path, as editors / config tools do)
 //	file.close
@@ -62,6 +66,7 @@ type Interp struct {
 	// the watcher goroutine sits in its re-watch retry loop
 	rewatching bool
 	clk        *gateClock
+	gate       *holdGate
 }
 
 // gateClock is the real clock except for Sleep: a sleeper announces itself and waits until the harness releases it
@@ -328,11 +333,29 @@ func payload(tok string) []byte {
 type counting struct {
 	*datasource.DefaultPropertyHandler
 	n *int64
+	g *holdGate
 }
+
+// holdGate lets the harness park the watcher goroutine inside one handler call (after the real Handle returned), so
+// that a change of the file made meanwhile is looked at only afterwards: deterministic interleaving, bounded waits.
+type holdGate struct {
+	armed  int32
+	held   chan struct{}
+	resume chan struct{}
+}
+
+func newHoldGate() *holdGate { return &holdGate{held: make(chan struct{}, 1), resume: make(chan struct{})} }
 
 func (c counting) Handle(src []byte) error {
 	err := c.DefaultPropertyHandler.Handle(src)
 	atomic.AddInt64(c.n, 1)
+	if c.g != nil && atomic.CompareAndSwapInt32(&c.g.armed, 1, 0) {
+		c.g.held <- struct{}{}
+		select {
+		case <-c.g.resume:
+		case <-time.After(3 * time.Second):
+		}
+	}
 	return err
 }
 
@@ -399,7 +422,8 @@ func (it *Interp) Step(t []string, op string) string {
 		var n int64
 		it.count = &n
 		h := newHandler(t[1]).(*datasource.DefaultPropertyHandler)
-		it.fds = file.NewFileDataSource(it.path, counting{h, it.count})
+		it.gate = newHoldGate()
+		it.fds = file.NewFileDataSource(it.path, counting{h, it.count, it.gate})
 		if err := it.fds.Initialize(); err != nil {
 			// no watcher goroutine exists: Close() would block for ever on the unbuffered closeChan
 			it.fds = nil
@@ -457,6 +481,68 @@ func (it *Interp) Step(t []string, op string) string {
 			it.clk.releaseOne(time.Second)
 			it.settleFor(before, true, 1200*time.Millisecond)
 		}
+		return rules(it.fmod)
+	case "file.renameback", "file.recreatep":
+		if it.fds == nil {
+			return rules(it.fmod)
+		}
+		before := atomic.LoadInt64(it.count)
+		if t[0] == "file.renameback" {
+			if err := os.Rename(it.path+".away", it.path); err != nil {
+				panic(err)
+			}
+		} else {
+			if err := os.WriteFile(it.path, payload(t[1]), 0o644); err != nil {
+				panic(err)
+			}
+			if st, err := os.Stat(it.path + ".away"); err == nil {
+				_ = os.Chtimes(it.path, st.ModTime(), st.ModTime())
+			}
+		}
+		if it.rewatching {
+			it.rewatching = false
+			it.clk.releaseOne(time.Second)
+			it.settleFor(before, true, 1200*time.Millisecond)
+		}
+		return rules(it.fmod)
+	case "file.rewrite":
+		if it.fds == nil {
+			return rules(it.fmod)
+		}
+		if it.removed || it.rewatching {
+			_ = os.WriteFile(it.path, payload(t[1]), 0o644)
+			return rules(it.fmod)
+		}
+		cur, err := os.ReadFile(it.path)
+		if err != nil {
+			panic(err)
+		}
+		// park the watcher in a handler call: rewrite the current content (an event, a delivery, the call is held)
+		held := false
+		if len(cur) > 0 {
+			atomic.StoreInt32(&it.gate.armed, 1)
+			it.writeInPlace(cur)
+			select {
+			case <-it.gate.held:
+				held = true
+			case <-time.After(2 * time.Second):
+				atomic.StoreInt32(&it.gate.armed, 0)
+			}
+		}
+		st, err := os.Stat(it.path)
+		if err != nil {
+			panic(err)
+		}
+		before := atomic.LoadInt64(it.count)
+		need := it.writeInPlace(payload(t[1]))
+		_ = os.Chtimes(it.path, st.ModTime(), st.ModTime()) // identical mtime (and an event of its own)
+		if held {
+			select {
+			case it.gate.resume <- struct{}{}:
+			case <-time.After(time.Second):
+			}
+		}
+		it.settle(before, need || true)
 		return rules(it.fmod)
 	case "file.giveup":
 		if it.fds == nil || !it.rewatching {
